@@ -85,6 +85,10 @@ def gen_case(rng, i, nprocs, EC):
     hints = ["nc_in_place_swap:%s" % rng.choice(["enable", "disable", "auto"])] if rng.random() < 0.7 else []
     if rng.random() < 0.3:
         hints.append("nc_ibuf_size:%d" % rng.choice([16, 512, 8192]))
+    if nprocs > 1 and i % 3 != 2:
+        # intra-node write aggregation: the blocking and the wait_all write paths differ, the buffers must be respected on both
+        # (chosen from the case number, not from the random stream)
+        hints.append("nc_num_aggrs_per_node:%d" % (1 + (i // 3) % (nprocs - 1)))
     p = NBProg(rng, nprocs, "@OUT@/c13.nc", info=";".join(hints) or None)
     p.check_abuf = True
     p.create()
